@@ -29,8 +29,8 @@ func init() {
 	engine.Register(&engine.Check{
 		ID:    "C01",
 		Title: "Programs evaluate to the result ECMAScript 5 prescribes",
-		Rule: "every program of six generator families (A control skeletons, B binding histories, C calls/arguments/constructors, " +
-			"D evaluation order, E conditionally evaluated statement-head expressions, L label-name reuse across functions/eval/siblings) is enumerated completely within its bound (choice vectors of engine.Explore / full products); each " +
+		Rule: "every program of seven generator families (A control skeletons, B binding histories, C calls/arguments/constructors, " +
+			"D evaluation order, E conditionally evaluated statement-head expressions, L label-name reuse across functions/eval/siblings, F for-in over multi-key objects with side-effecting targets) is enumerated completely within its bound (choice vectors of engine.Explore / full products); each " +
 			"program text is distinct; it is run on otto through Run(string), Compile+Run, ParseFile+Run(*ast.Program), Eval, and a " +
 			"Script compiled on runtime A run on fresh runtimes B and C, and compared with ref/js (global code; eval code for the Eval " +
 			"route): host-call sequence with canonical arguments, completion value, uncaught-exception class. A case is non-trivial " +
@@ -45,13 +45,14 @@ func init() {
 			{Name: "Cnew", Run: runCnew},
 			{Name: "E", Run: runE},
 			{Name: "L", Run: runL},
+			{Name: "F", Run: runF},
 			{Name: "witness", Run: runWitness, Solo: true},
 		},
 		Assumptions: []string{
 			"ref/js is a faithful transcription of ES5.1 clauses 8.6-8.12, 9, 10, 11, 12, 13 and the listed natives of 15 (trusted model; validated against the spec text and, at development time only, against V8 modulo the ES2015 differences listed in DESIGN.md Appendix B)",
 			"switch with no matching case runs the default clause and then every clause after it (the ES2015 clarification of the ambiguous step 8 of ES5.1 12.11)",
 			"observation through a host function registered with Otto.Set; otto.Value.Class/ToFloat/string representation are trusted for canonicalisation",
-			"generators never produce implementation-defined behaviour (for-in order over several keys, Function.prototype.toString, error messages)",
+			"generators never produce implementation-defined behaviour (Function.prototype.toString, error messages, properties added during enumeration); for-in over several keys (family F and three witnesses only) assumes own properties in creation order (indices ascending) before inherited ones, the order property C07 fixes",
 		},
 		CrashIsViolation: true,
 		QuickBudget:      10 * time.Minute,
